@@ -24,7 +24,7 @@ Live == DOMAIN live
 
 Pre(e) == CASE e.op = "obtain" -> TRUE
             [] e.op = "dead"   -> e.s \in Live
-            [] OTHER -> e.op \in {"drop", "cycdrop", "gc"}     \* the program drops references: no clause
+            [] OTHER -> e.op \in {"drop", "cycdrop", "gc", "dropcb", "winclose"}     \* the program drops references: no clause
 Why(e) == IF ~Pre(e) THEN "Harness"
           ELSE IF e.op # "obtain" THEN ""
           ELSE IF e.req # e.d THEN "Requested"
